@@ -271,6 +271,7 @@ func init() {
 			{Name: "deep", Run: c19Deep},
 			{Name: "recross", QShards: 3, TShards: 8, Run: c19Recross},
 			{Name: "edits", TShards: 4, Run: c19Edits},
+			{Name: "widenested", QShards: 4, TShards: 6, Run: c19WideNested},
 			{Name: "readers", Race: true, QShards: 2, TShards: 4, Run: c19Readers},
 			{Name: "wide", TShards: 4, Run: c19Wide},
 			{Name: "parallel", Race: true, Run: treeParallel},
@@ -1315,6 +1316,60 @@ func streamOver(name string, rd io.Reader) rawIter {
 // c19Wide: nodes with very many children — a child cursor kept in a narrow
 // integer, or a child list handled in blocks, goes wrong exactly at 2^8 / 2^16
 // children, which random trees with fan-out up to 20 never have.
+// c19WideNested: polytomies inside polytomies and at the bottom of deep
+// caterpillars — the work list of a traversal is already tens of thousands of
+// entries long (siblings still to visit) when one node adds tens of thousands
+// more in one go. c19Wide has one wide node; the deep units have narrow ones.
+func c19WideNested(c *Ctx) {
+	type shape struct {
+		name         string
+		outer, inner int // outer: width of the root polytomy, or depth of the caterpillar
+		cater        bool
+	}
+	shapes := []shape{{"polytomy in a polytomy", 70000, 20000, false}, {"polytomy in a polytomy", 20000, 70000, false}, {"polytomy in a polytomy", 65536, 65536, false},
+		{"polytomy at the bottom of a caterpillar", 90000, 40000, true}, {"polytomy at the bottom of a caterpillar", 65536, 16385, true}, {"polytomy at the bottom of a caterpillar", 70000, 300, true}}
+	if c.Thorough {
+		shapes = append(shapes, shape{"polytomy in a polytomy", 1 << 18, 1 << 17, false}, shape{"polytomy at the bottom of a caterpillar", 1 << 20, 1 << 18, true})
+	}
+	for i, sh := range shapes {
+		for pos := 0; pos < 2; pos++ { // the inner polytomy hangs from the first / the last child
+			c.Case(int64(2*i+pos), func(k *K) {
+				var root, host *newick.Node
+				if sh.cater {
+					root = combTree(sh.outer, 1, pos) // legs before or after the spine child
+					host = root
+					for len(host.Children) > 0 {
+						nxt := host.Children[0]
+						if pos == 1 {
+							nxt = host.Children[len(host.Children)-1]
+						}
+						if len(nxt.Children) == 0 && nxt != host.Children[0] && pos == 0 {
+							break
+						}
+						host = nxt
+					}
+				} else {
+					root = &newick.Node{}
+					for j := 0; j < sh.outer; j++ {
+						root.Children = append(root.Children, &newick.Node{})
+					}
+					host = root.Children[0]
+					if pos == 1 {
+						host = root.Children[len(root.Children)-1]
+					}
+				}
+				for j := 0; j < sh.inner; j++ {
+					host.Children = append(host.Children, &newick.Node{})
+				}
+				k.Input("shape", fmt.Sprintf("%s: %d, then %d children (variant %d)", sh.name, sh.outer, sh.inner, pos))
+				checkTraversals(k, root, true)
+				k.Count("nested_wide_trees", 1)
+				k.Nontrivial([]byte(fmt.Sprint("widenested", sh, pos)))
+			})
+		}
+	}
+}
+
 func c19Wide(c *Ctx) {
 	fans := []int{255, 256, 257, 1000, 65535, 65536, 65537, 70000}
 	if c.Thorough {
